@@ -183,10 +183,28 @@ def stage_item(item):
             if bad_up:
                 out['upstream_defect'] = True
         if out.get('upstream_defect') and tw['status'] == 'ok':
-            # report the twin's result in place of the skipped program
-            tw['name'] = item['name'] + '#twin(renamed apart; original skipped: its input is already ill-formed by the upstream capture defect)'
-            return tw
+            if item['name'] in listed_downstream_inputs() or os.environ.get('VERIF_COLLECT_INSTANCES') == '1':
+                # report the twin's result in place of the skipped program
+                tw['name'] = item['name'] + '#twin(renamed apart; original skipped: its input is already ill-formed by the upstream capture defect)'
+                return tw
+            # the open finding is listed by input: an ill-formed stage input on any other program is not absorbed
+            out['status'] = 'inconclusive'
+            out['results']['precondition'] = {'pairs': 0, 'cut': 0, 'undefined': 0, 'queries': 0, 'solver_s': 0.0, 'violations': [],
+                                              'inconclusive': ["the input of this stage is ill-formed (reference machine stuck or wrong translation of the source) "
+                                                               "although the program is not a listed instance of the capture finding"]}
     return out
+
+
+_downstream = [None]
+
+
+def listed_downstream_inputs():
+    if _downstream[0] is None:
+        names = set()
+        for k in fw.load_known():
+            names |= set(k.get('downstream_inputs') or [])
+        _downstream[0] = names
+    return _downstream[0]
 
 
 def per_definition(lin_node, b):
